@@ -93,7 +93,7 @@ def run_calls(ctx, nconf, nprog, tag):
     stats = {"programs": 0, "rows_certainly_failing": 0, "rows_certainly_fitting": 0, "union_receivers": 0, "static_calls": 0, "keyword_calls": 0,
              "rest_only_failures_skipped": 0, "unusable": 0}
     for (wd, name, text, g, mdl), (rc, so, se) in zip(jobs, common.pmap(one, jobs)):
-        if rc != 0 or so.strip().endswith("timeout"):
+        if rc != 0 or "timeout" in so.split("\n"):
             stats["unusable"] += 1
             continue
         stats["programs"] += 1
